@@ -71,6 +71,7 @@ import (
 	"encoding/json"
 	"fmt"
 	"sort"
+	"sync"
 	"time"
 
 	"github.com/fxamacker/cbor"
@@ -253,20 +254,44 @@ func (s *SignedAccumulator) UnmarshalVerify(pk *gabikeys.PublicKey) (*Accumulato
 		return nil, errors.New("public key does not support revocation")
 	}
 	// The memoised result only holds for the key it was obtained with and for the bytes it was
-	// obtained from (another message may have been decoded into this object since)
-	if s.verified != nil && s.verifiedWith != nil && s.verifiedWith.Equal(pk.ECDSA) && bytes.Equal(s.Data, s.verifiedData) {
-		if s.Accumulator == nil || !s.Accumulator.equal(s.verified) {
-			s.Accumulator = s.verified.clone()
+	// obtained from (another message may have been decoded into this object since).
+	// (memoMu: the memo, and the exported field when it has to be restored, are written here while other
+	// goroutines may be asking for the same accumulator)
+	memoMu.RLock()
+	hit := s.memoHit(pk)
+	acc := s.Accumulator
+	intact := hit && acc != nil && acc.equal(s.verified)
+	memoMu.RUnlock()
+	if intact {
+		return acc, nil
+	}
+	if hit {
+		memoMu.Lock()
+		if s.memoHit(pk) {
+			if s.Accumulator == nil || !s.Accumulator.equal(s.verified) {
+				s.Accumulator = s.verified.clone()
+			}
+			acc = s.Accumulator
+			memoMu.Unlock()
+			return acc, nil
 		}
-		return s.Accumulator, nil
+		memoMu.Unlock()
 	}
 	if err := signed.UnmarshalVerify(pk.ECDSA, s.Data, msg); err != nil {
 		return nil, err
 	}
+	memoMu.Lock()
+	defer memoMu.Unlock()
 	s.Accumulator, s.verified = msg, msg.clone()
 	s.verifiedWith, s.verifiedData = pk.ECDSA, append(signed.Message(nil), s.Data...)
 	return s.Accumulator, nil
 }
+
+func (s *SignedAccumulator) memoHit(pk *gabikeys.PublicKey) bool {
+	return s.verified != nil && s.verifiedWith != nil && s.verifiedWith.Equal(pk.ECDSA) && bytes.Equal(s.Data, s.verifiedData)
+}
+
+var memoMu sync.RWMutex
 
 func NewUpdate(sk *gabikeys.PrivateKey, acc *Accumulator, events []*Event) (*Update, error) {
 	sacc, err := acc.Sign(sk)
